@@ -15,8 +15,8 @@ from esim.sched import Sched, SimAbort
 from . import base
 
 ID = "C13"
-QUICK_RUNS = 6000
-THOROUGH_RUNS = 400000
+QUICK_RUNS = 20000
+THOROUGH_RUNS = 800000
 LEVEL = "exploration"
 RULE = ("one run = 1-3 message types and 1-3 action types with 0-4 declared fields each (serializers v+1 / [v] / "
         "str(v)+'!', each counting its calls, each failing on a drawn subset of calls), then 3-25 operations "
